@@ -98,3 +98,52 @@ Theorem C10_k : forall tb, consistent tb = true ->
     find_trak_end tb ts et ets = Ok (k, t + d, mkChunk c (S_first_in_chunk tb c) cnt).
 Proof. exact trak_end_correct. Qed.
 Print Assumptions C10_k.
+
+(* findEndTime with an stss box: the end time is the start (decode time) of the first sync sample j at or after the
+   first sample that starts at or after the request (lastNr, characterised by C09_sample_at_time); an error when there is
+   no such sync sample, or when it is sample 1 (nothing would be left) *)
+Theorem C10_end_time_spec : forall tb l, consistent tb = true ->
+  deltas_positive (t_stts_count tb) (t_stts_delta tb) = true -> t_stss tb = Some l ->
+  forall ts ms lastNr, u64 (ms * ts) / 1000 < sumN (durs tb) ->
+  S_sample_at_time tb (u64 (ms * ts) / 1000) = Some lastNr ->
+  (exists j t, lastNr <= j /\ 2 <= j <= nsamples tb /\ S_is_sync l j = true /\
+               (forall j', lastNr <= j' < j -> S_is_sync l j' = false) /\
+               S_decode_time tb j = Some t /\ find_end_time tb ts ms = Ok t) \/
+  ((forall j', lastNr <= j' -> S_is_sync l j' = false) /\ find_end_time tb ts ms = Err) \/
+  (lastNr = 1 /\ S_is_sync l 1 = true /\ find_end_time tb ts ms = Err).
+Proof. exact end_time_stss. Qed.
+Print Assumptions C10_end_time_spec.
+
+(* findEndTime without stss (repaired text, 16b42be): the end time is the start of the first sample starting at or
+   after the request (the end of the track when there is none) *)
+Theorem C10_end_time_nostss : forall tb, consistent tb = true ->
+  deltas_positive (t_stts_count tb) (t_stts_delta tb) = true -> t_stss tb = None ->
+  forall ts ms lastNr, u64 (ms * ts) / 1000 < sumN (durs tb) ->
+  S_sample_at_time tb (u64 (ms * ts) / 1000) = Some lastNr -> 2 <= lastNr ->
+  exists t d, S_decode_time tb (lastNr - 1) = Some t /\ S_dur tb (lastNr - 1) = Some d /\
+              (lastNr <= nsamples tb -> S_decode_time tb lastNr = Some (t + d)) /\
+              find_end_time tb ts ms = Ok (t + d).
+Proof. exact end_time_nostss. Qed.
+Print Assumptions C10_end_time_nostss.
+
+(* the pinned text (f87a9e4) kept the sample found: the end time was the END of the first sample at/after the request,
+   and a request inside the last sample indexed past the stts table *)
+Definition ns_tb : tables :=
+  mkTables [4] [10] None (mkStsc [mkEntry 1 4 1] 1 []) (mkStsz 3 4 []) (Some [100]) None None None.
+Theorem C10_end_time_nostss_refuted :
+  consistent ns_tb = true /\ S_sample_at_time ns_tb 15 = Some 3 /\ S_decode_time ns_tb 3 = Some 20 /\
+  find_end_time_pinned ns_tb 1000 15 = Ok 30 /\ find_end_time ns_tb 1000 15 = Ok 20 /\
+  find_end_time_pinned ns_tb 1000 35 = Panic /\ find_end_time ns_tb 1000 35 = Ok 40.
+Proof. vm_compute. repeat split. Qed.
+Print Assumptions C10_end_time_nostss_refuted.
+
+(* the pinned cropStsc: a second entry with the same first chunk (cut inside the first chunk of a run), and the id of a
+   dropped entry for the split entry when the ids vary *)
+Definition cs_box : stsc_box := mkStsc [mkEntry 1 4 1; mkEntry 2 3 5; mkEntry 4 1 11] 0 [2; 1; 3].
+Theorem C10_stsc_pinned_refuted :
+  crop_stsc_pinned cs_box 2 = Ok (mkStsc [mkEntry 1 4 1; mkEntry 1 2 1] 0 [2; 1; 3; 2]) /\
+  crop_stsc cs_box 2 = Ok (mkStsc [mkEntry 1 2 1] 0 [2]) /\
+  crop_stsc_pinned cs_box 9 = Ok (mkStsc [mkEntry 1 4 1; mkEntry 2 3 5; mkEntry 3 2 8] 0 [2; 1; 3; 1]) /\
+  crop_stsc cs_box 9 = Ok (mkStsc [mkEntry 1 4 1; mkEntry 2 3 5; mkEntry 3 2 8] 0 [2; 1; 1]).
+Proof. vm_compute. repeat split. Qed.
+Print Assumptions C10_stsc_pinned_refuted.
